@@ -22,8 +22,9 @@ META = dict(
     rule="state = canonical (subscriptions, accessory registrations, listeners, logs, flags); transition = one history symbol; execution = maximal path",
 )
 
-SETS = {"A": [(1, 9), (1, 10)], "B": [(1, 10), (2, 9)]}
-ALPH_SUBS = ["sub:A", "sub:B", "unsub:A", "unsub:B", "drop", "arm-cut", "ev1", "L2+"]
+SETS = {"A": [(1, 9), (1, 10)], "B": [(1, 10), (2, 9)], "C": [(2, 10), (1, 9), (2, 9), (1, 10)]}  # C: accessory ids interleaved, as a caller (or a set) may pass them
+ALPH_SUBS = ["sub:A", "sub:B", "sub:C", "unsub:A", "unsub:B", "drop", "arm-cut", "ev1", "L2+"]
+ALPH_OFFLINE = ["sub:A", "sub:C", "unsub:A", "offline", "online", "drop", "ev1"]
 ALPH_EVENTS = ["L2+", "L2-", "R+", "ev1", "ev2", "ev-split", "ev-empty", "ev-nonjson", "drop", "sub:A"]
 ALPH_SELF = ["S+", "L2+", "ev1", "ev2", "R+", "drop"]
 
@@ -43,6 +44,8 @@ class H(explore.Harness):
         self.back_expected = {}
         self.unreg = {}
         self.drops = 0
+        self.model_subs = set()  # what the caller subscribed to (the property's subject), independent of the library's bookkeeping
+        self.offline = False
         self.depth_used = 0
         self.rig.acc.handler = self._handler
         self._add_listener("L1")
@@ -107,6 +110,10 @@ class H(explore.Harness):
                 continue
             if a == "drop" and (self.drops >= self.p.get("max_drops", 2) or self._cur() is None):
                 continue
+            if a == "offline" and (self.offline or self.drops >= self.p.get("max_drops", 2)):
+                continue
+            if a == "online" and not self.offline:
+                continue
             if a == "arm-cut" and (self.cut_armed or self.cutoff_happened):
                 continue
             if a.startswith("ev") and self._cur() is None:
@@ -120,9 +127,26 @@ class H(explore.Harness):
         k, _, arg = label.partition(":")
         cur = self._cur()
         if k == "sub":
+            self.model_subs |= set(SETS[arg])
             self._run(self.pairing.subscribe(list(SETS[arg])))
         elif k == "unsub":
+            self.model_subs -= set(SETS[arg])
             self._run(self.pairing.unsubscribe(list(SETS[arg])))
+        elif k == "offline":
+            # the accessory goes away: new connections are refused and the current one drops
+            self.offline = True
+            self.drops += 1
+            self.net.auto = lambda att: ("refuse",)
+            if cur is not None:
+                cur.peer_close()
+        elif k == "online":
+            self.offline = False
+            self.net.auto = lambda att: ("ok", att["hosts"][0])
+            self.loop.run_until_idle()
+            for _ in range(60):  # let the back-off timers run until the connector gets through
+                if self.pairing.is_connected or not self.loop.fire_next_timer():
+                    break
+                self.loop.run_until_idle()
         elif k == "drop":
             self.drops += 1
             cur.peer_close()
@@ -194,10 +218,10 @@ class H(explore.Harness):
         cur = self._cur()
         if self.pairing.is_connected and cur is not None:
             reg = getattr(cur.session, "ev", set())
-            missing = set(self.pairing.subscriptions) - reg
+            missing = (set(self.pairing.subscriptions) | self.model_subs) - reg
             if missing and not self.cutoff_happened:
-                self.viol.append(("subscriptions-not-restored-on-live-session", {"missing": sorted(missing), "subscriptions": sorted(self.pairing.subscriptions), "registered": sorted(reg)}))
-            extra = reg - set(self.pairing.subscriptions)
+                self.viol.append(("subscriptions-not-restored-on-live-session", {"missing": sorted(missing), "caller_subscribed": sorted(self.model_subs), "library_subscriptions": sorted(self.pairing.subscriptions), "registered": sorted(reg)}))
+            extra = reg - set(self.pairing.subscriptions) - self.model_subs
             if extra and not self.cutoff_happened:
                 self.viol.append(("unsubscribed-characteristic-still-registered", {"extra": sorted(extra)}))
         for name, log in self.logs.items():
@@ -220,7 +244,7 @@ class H(explore.Harness):
     def canon(self):
         cur = self._cur()
         return (
-            tuple(sorted(self.pairing.subscriptions)), tuple(sorted(getattr(cur.session, "ev", set()))) if cur else None, tuple(sorted(self.unreg)), self.cut_armed, self.cutoff_happened,
+            tuple(sorted(self.pairing.subscriptions)), tuple(sorted(self.model_subs)), self.offline, tuple(sorted(getattr(cur.session, "ev", set()))) if cur else None, tuple(sorted(self.unreg)), self.cut_armed, self.cutoff_happened,
             self.pairing.supports_subscribe, bool(self.pairing.is_connected), self.drops, tuple(sorted((k, len(v)) for k, v in self.logs.items())), "S" in self.logs,
         )
 
@@ -260,6 +284,7 @@ def run(ctx):
     configs = [
         (dict(alphabet=ALPH_SUBS, max_drops=2), 5 if quick else 7),
         (dict(alphabet=ALPH_EVENTS, max_drops=1), 4 if quick else 6),
+        (dict(alphabet=ALPH_OFFLINE, max_drops=2), 4 if quick else 6),
     ]
     if not quick:
         configs.append((dict(alphabet=ALPH_SELF, max_drops=1), 5))
@@ -271,6 +296,6 @@ def run(ctx):
     ctx.bounds.update(configs=[dict(alphabet=c["alphabet"], depth=d) for c, d in configs])
     ctx.pmap(_work, work)
     ctx.exhaustive = not ctx.acc.capped
-    for s in ("sub", "unsub", "drop", "arm-cut", "ev1", "ev2", "ev-split", "ev-empty", "ev-nonjson", "L2+", "R+"):
+    for s in ("sub", "unsub", "drop", "arm-cut", "ev1", "ev2", "ev-split", "ev-empty", "ev-nonjson", "L2+", "R+", "offline", "online"):
         ctx.require(ctx.acc.symbols[s] > 0, f"symbol {s} never taken")
     ctx.require(len(ctx.acc.outcomes) >= 6, "too few distinct outcomes")
